@@ -93,6 +93,22 @@ def apply_ops(structure, ops):
         elif k == "scale":
             f = op["f"]
             s = rebuild(s, coord_fn=lambda ri, p: p * f)
+        elif k == "copies":
+            # n copies of the structure far from one another (a crystal-like assembly), chains renamed per copy
+            from rnapolis import tertiary
+            from rnapolis.common import ResidueAuth, ResidueLabel
+
+            res = []
+            for c in range(op["n"]):
+                off = np.array([op.get("spacing", 400.0) * (c % 3), op.get("spacing", 400.0) * (c // 3 % 3), op.get("spacing", 400.0) * (c // 9)])
+
+                def relabel(ri, r, c=c):
+                    lab = ResidueLabel(f"{r.label.chain}{c}", r.label.number, r.label.name) if r.label is not None else None
+                    auth = ResidueAuth(f"{r.auth.chain}{c}", r.auth.number, r.auth.icode, r.auth.name) if r.auth is not None else None
+                    return lab, auth
+
+                res += list(rebuild(s, coord_fn=lambda ri, p, off=off: p + off, relabel=relabel).residues)
+            s = tertiary.Structure3D(res)
         elif k == "base-only":
             # a share of the nucleotides is reduced to the base (plus C1'): partially built models, free bases
             rng = random.Random(op["seed"])
